@@ -13,6 +13,7 @@ from corankco.element import Element
 from corankco.ranking import Ranking
 from corankco.algorithms.pairwisebasedalgorithm import PairwiseBasedAlgorithm
 from corankco.algorithms.exact.exactalgorithmcplexforpaperoptim1 import ExactAlgorithmCplexForPaperOptim1
+from corankco.algorithms.exact.exactalgorithmpulp import ExactAlgorithmPulp
 
 
 class ParCons(RankAggAlgorithm, PairwiseBasedAlgorithm):
@@ -108,7 +109,12 @@ class ParCons(RankAggAlgorithm, PairwiseBasedAlgorithm):
                     res.extend(cons_ext)
                     optimal = False
                 else:
-                    cons_ext = ExactAlgorithmCplexForPaperOptim1().compute_consensus_rankings(
+                    # Cplex if it can be imported, otherwise the free solver
+                    try:
+                        exact_alg: RankAggAlgorithm = ExactAlgorithmCplexForPaperOptim1()
+                    except ImportError:
+                        exact_alg = ExactAlgorithmPulp()
+                    cons_ext = exact_alg.compute_consensus_rankings(
                         sub_problem, scoring_scheme, True).consensus_rankings[0]
                     res.extend(cons_ext)
 
